@@ -144,13 +144,31 @@ def invalid_grid():
         yield {"entry": "invalid", "n": 12, "call": "zhit", "opts": {"smoothing": sm, "num_points": npts, "polynomial_order": order, "window": "boxcar"}}
 
 
+def _pairs(item):
+    out = {("n", item["n"])}
+    for k, v in item["opts"].items():
+        out.add((k, repr(v)))
+    return out
+
+
 def _stride(ctx, gen, target):
+    """Every k-th combination, topped up so that every value of every option (and every size) occurs at least once
+    together with every entry point (covering array of strength one; the thorough tier runs the full product)."""
     items = list(gen)
     if ctx.tier == "thorough" or len(items) <= target:
         return items
     k = max(1, len(items) // target)
     off = ctx.seed % k
-    return items[off::k]
+    chosen = items[off::k]
+    have = set()
+    for it in chosen:
+        have |= _pairs(it)
+    for it in items:
+        p = _pairs(it)
+        if not p <= have:
+            chosen.append(it)
+            have |= p
+    return chosen
 
 
 def cases(ctx):
@@ -170,7 +188,7 @@ def classify(exc) -> str:
 
     own = tuple(v for v in vars(X).values() if isinstance(v, type) and issubclass(v, Exception))
     frame = lib_frame(exc.__traceback__) or ""
-    explicit = innermost_is_raise_in_lib(exc) and not frame.startswith("progress.py")
+    explicit = innermost_is_raise_in_lib(exc) and "progress.py" not in frame.split(":")[0]
     if isinstance(exc, own) and explicit:
         return "refused"
     if isinstance(exc, (TypeError, ValueError)) and explicit:
